@@ -1693,7 +1693,7 @@ func ValueEqual(a *VMValue, b *VMValue, autoConvert bool) bool {
 		case VMTypeDict:
 			d1 := a.MustReadDictData()
 			d2 := b.MustReadDictData()
-			if len(d1.Dict.dirty) != len(d2.Dict.dirty) {
+			if d1.Dict.Length() != d2.Dict.Length() {
 				return false
 			}
 			isSame := true
